@@ -73,6 +73,9 @@ def _origin_present_subject(subject: str, msg: str, ovars: set) -> bool:
     return any(subject.replace(" ", "") == f"isinstance({v},bytes)" for v in ovars)
 
 
+from .common_node import key_fields_flat
+
+
 def run(ctx: Ctx):
     model = ctx.model
     R = RecvModel(ctx)
@@ -123,13 +126,32 @@ def run(ctx: Ctx):
         # nothing else may be required (otherwise real duplicates slip through)
         allowed_subjects = {R.is_req, f"{msg}.header.is_retransmit", win_key,
                             f"{msg}.header.end_to_end_identifier",
-                            f"hasattr({msg}, 'origin_host')", "self.validate_received_request_avps",
-                            "failed_avp"}
+                            f"hasattr({msg}, 'origin_host')"}
+        # (not: the outcome of the mandatory-AVP validation - a repeat that lacks an AVP is a
+        # duplicate all the same and is answered 5012, not 5005)
         extra = [f for f in facts if f[0] not in allowed_subjects
                  and not _origin_present_subject(f[0], msg, ovars)]
         if extra:
             ctx.fail(cons + "#extra", g.loc(n), f"the duplicate rejection additionally requires "
                      f"{extra}: duplicates not satisfying it are delivered to the application again")
+        # the check comes before the mandatory-AVP validation: a repeat of an answered request is a
+        # duplicate whatever it carries, and is answered 5012 - not 5005 (again)
+        cons_o = cons + "#before-validation"
+        ctx.inst(cons_o)
+        dup_ifs = [x for x in ast.walk(R.f.node) if isinstance(x, ast.If)
+                   and f"{msg}.header.is_retransmit" in ast.unparse(x.test)]
+        in_dup_test = {id(y) for x in dup_ifs for y in ast.walk(x.test)}
+        tflag_tests = [t_ for t_ in g.nodes if t_.kind == "test" and t_.ast is not None
+                       and id(t_.ast) in in_dup_test]
+        MISSING = K("E_RESULT_CODE_DIAMETER_MISSING_AVP") if "K" in dir() else None
+        s5005 = [s_ for s_ in R.sends if any(
+            isinstance(x.ast, ast.Assign) and "MISSING_AVP" in ast.unparse(x.ast.value)
+            and g.can_reach(x, s_) and g.dominated(s_, [x]) for x in g.nodes if x.kind == "stmt" and x.ast is not None
+            and isinstance(x.ast, ast.Assign))]
+        if tflag_tests and s5005 and not all(g.dominated(s_, tflag_tests, effect=False) for s_ in s5005):
+            ctx.fail(cons_o, g.loc(s5005[0]), "the 5005 answer of the mandatory-AVP validation can be sent "
+                     "without the duplicate check having run first: the T-flagged repeat of an "
+                     "answered request that lacks a mandatory AVP is answered 5005 instead of 5012")
         # outcome: 5012, one send on the same connection, return before dispatch
         avar = A.dotted(A.store_targets(n.ast)[0]) if A.store_targets(n.ast) else None
         sends = [s for s in R.sends if g.dominated(s, [n])]
@@ -181,6 +203,27 @@ def run(ctx: Ctx):
         ctx.fail(cons, rec.loc(creates[0][0]) if creates else rec.loc(),
                  "an origin's window is not created as deque(maxlen=self.retransmit_queue_size): "
                  "the configured number of most recent answers is not what is remembered")
+    # answers are recorded by application and connection threads alike: the window of an origin
+    # is created by one atomic get-or-create (or under a lock), not by check-then-assign - two
+    # threads sending the first answers to an origin would each create a window, and the
+    # identifier remembered in the one that loses is forgotten
+    cons_c = "_record_answer:window-created-atomically"
+    ctx.inst(cons_c)
+    par_r = A.parents(rec.node)
+    for c, v in creates:
+        if isinstance(c, ast.Assign):
+            x, locked_ = c, False
+            while x in par_r:
+                x = par_r[x]
+                if isinstance(x, ast.With) and any("lock" in ast.unparse(i.context_expr).lower() for i in x.items):
+                    locked_ = True
+            if not locked_:
+                ctx.fail(cons_c, rec.loc(c), f"`{ast.unparse(c)[:70]}` creates an origin's window by "
+                         f"check-then-assign without a lock: _record_answer runs on application and "
+                         f"connection threads, two of them answering the first requests of an origin "
+                         f"each create a window and one answered identifier is lost - its T-flagged "
+                         f"repeat is delivered to the application again",
+                         expected="self._sent_answers.setdefault(origin, deque(maxlen=...)) or a lock")
     # other mutations of the window than append
     cons = "window:writers"
     ctx.inst(cons)
@@ -370,6 +413,35 @@ def run(ctx: Ctx):
     if rec_key is not None and not rk_ok:
         ctx.fail(cons + "#record", rec.loc(), f"_record_answer files the answered id under "
                  f"`{rec_key}`, which is not the origin recorded on reception")
+    ctx.rule("C17-R6", "an answer is in the origin's window before the peer can see it; every "
+                       "outstanding request keeps its own origin record", floor=2)
+    sm_ = nc.methods.get("send_message")
+    gs_ = cfg_of(sm_)
+    q_ = [n for n in gs_.nodes if any(A.call_name(c).endswith(".add_out_msg") for c in n.calls())]
+    r_ = [n for n in gs_.nodes if any(A.call_name(c) == "self._record_answer" for c in n.calls())]
+    cons = "send_message:recorded-before-queued"
+    ctx.inst(cons)
+    if q_ and r_ and any(gs_.can_reach(q, r) for q in q_ for r in r_):
+        ctx.fail(cons, gs_.loc(r_[0]), "send_message hands the answer to the connection (add_out_msg) and "
+                 "records its end-to-end identifier afterwards: the writer thread can put the answer on "
+                 "the wire and the peer's T-flagged repeat can be handled by the reader thread before "
+                 "the submitting thread has recorded it - the repeat is delivered to the application "
+                 "again instead of being answered 5012")
+    cons = "origin-record:one-origin-per-key"
+    ctx.inst(cons)
+    ostores = [n for n in g.nodes if n.kind == "stmt" and isinstance(n.ast, ast.Assign) and any(
+        isinstance(t, ast.Subscript) and A.dotted(t.value) == f"self.{ORIG}" for t in n.ast.targets)]
+    if ostores:
+        s0 = ostores[0]
+        keyfields = key_fields_flat(R.f.node, [t for t in s0.ast.targets if isinstance(t, ast.Subscript)][0].slice) or []
+        holds_one = isinstance(s0.ast.value, ast.Tuple)
+        if holds_one and not any("origin" in str(k) for k in keyfields):
+            ctx.fail(cons, g.loc(s0), f"the origin of a request is recorded as ONE value under the key "
+                     f"{keyfields} - identifiers the peer chooses: two requests of different origin hosts "
+                     f"that a relay forwards over one connection with the same hop-by-hop and end-to-end "
+                     f"identifiers overwrite each other's record, the answer to the first is entered into "
+                     f"the second origin's window (its repeat is delivered again, and a request of the "
+                     f"second origin that was never answered is rejected as duplicate)")
     # writer, readers and purge of the flat transaction tables agree on the key
     from .common_node import transaction_table_keys
     transaction_table_keys(ctx, "C17-R5", tables=("_origin_waiting_answer",))
